@@ -723,8 +723,9 @@ func isOriginMarkerRefusal(err error) bool {
 }
 
 // judge is the oracle. A provider HOLDS a reference from the moment its creation
-// (Create+Write+Finish) or its AttachRemoteObjects reported success until its Remove reaches its
-// first storage call. Demanded in every execution, with or without failures of the store:
+// (Create+Write+Finish) or its AttachRemoteObjects reported success until a Remove of its makes its
+// first call that reaches the store (a Remove whose calls all failed without effect released
+// nothing). Demanded in every execution, with or without failures of the store:
 //   - while a holder exists the object exists (deleted-while-referenced);
 //   - a creation / an attach reports success only while the object and the provider's own marker
 //     exist (otherwise nothing protects the reference it reported);
@@ -783,9 +784,24 @@ func judge(hh vsched.Harness, x *vsched.Exec) (outcome, class, desc string) {
 	for k, e := range s.core.log {
 		exists := shadow[e.Name]
 		bad := false
+		// The reference is released by the first call of the Remove that reaches the store. A call the
+		// store failed without effect (Inj == 1) neither changes nor observes the store, so it commutes
+		// with the other providers' calls (and the state cache merges such orders): the verdict must
+		// not depend on its position. A Remove that fails before any of its calls reached the store
+		// has released nothing (the provider keeps the object and its marker and may retry).
 		if releasing[e.Prov] {
-			delete(releasing, e.Prov)
-			delete(holder, e.Prov)
+			switch e.Op {
+			case "create", "write", "put", "delete", "size", "open", "readat", "list":
+				if e.Inj != 1 {
+					delete(releasing, e.Prov)
+					delete(holder, e.Prov)
+				}
+			case "remove-ret", "cleanup-ret":
+				delete(releasing, e.Prov)
+				if e.OK {
+					delete(holder, e.Prov)
+				}
+			}
 		}
 		if e.Inj != 0 {
 			faultIn[e.Prov] = true
@@ -958,6 +974,7 @@ func judge(hh vsched.Harness, x *vsched.Exec) (outcome, class, desc string) {
 		parts = append(parts, "object=never-created")
 	}
 	if len(faults) > 0 {
+		sort.Strings(faults) // the order of failures of different providers is not part of the outcome
 		parts = append(parts, "store-failed="+strings.Join(faults, ","))
 	}
 	outcome = strings.Join(parts, " ")
